@@ -53,6 +53,8 @@ Cases ==
   \cup [g : {"crossdir"}, where : {"disk", "cache"}, phase : 1..2]
   \* the file is the one named by exactly the string value: white space at either end is part of the name
   \cup [g : {"exactname"}, top : 1..2, k : 1..6, where : {"disk", "cache"}]
+  \* (a name that begins with a separator is still relative to the includer's directory: d + "/" + "/f.liq")
+  \cup [g : {"exactname"}, top : {2}, k : {7}, where : {"disk", "cache"}]
   \* the text of the included file reaches the output whole: also the line end(s) it finishes with
   \cup [g : {"tailnl"}, top : 1..2, k : 1..3, where : {"disk", "cache"}]
   \cup [g : {"loop"}, top : 1..2]
@@ -62,7 +64,7 @@ Cases ==
 \* 5: "a\f.liq", a backslash in the name (next to a/f.liq)   6: the same with only a/f.liq there
 BSL == <<97, 92>> \o F_LIQ
 SLA == <<97, 47>> \o F_LIQ
-Nm(k) == CASE k = 1 -> <<32>> \o F_LIQ [] k = 2 -> F_LIQ \o <<32>> [] k = 3 -> F_LIQ \o <<10>> [] k = 4 -> F_LIQ [] k \in {5, 6} -> BSL
+Nm(k) == CASE k = 1 -> <<32>> \o F_LIQ [] k = 2 -> F_LIQ \o <<32>> [] k = 3 -> F_LIQ \o <<10>> [] k = 4 -> F_LIQ [] k \in {5, 6} -> BSL [] k = 7 -> <<47>> \o F_LIQ
 TailOf(k) == CASE k = 1 -> <<10>> [] k = 2 -> <<13, 10>> [] k = 3 -> <<10, 10>>
 InDir(x, name) == JoinPath(DirOf(TOPS[x.top]), name)
 ExactFiles(x) == CASE x.k = 1 -> << <<InDir(x, Nm(1)), Body(IF x.where = "disk" THEN DISK ELSE CACHE)>>, <<InDir(x, F_LIQ), Body(DECOY)>> >>
@@ -71,6 +73,7 @@ ExactFiles(x) == CASE x.k = 1 -> << <<InDir(x, Nm(1)), Body(IF x.where = "disk" 
                    [] x.k = 4 -> << <<InDir(x, Nm(1)), Body(DECOY)>> >>
                    [] x.k = 5 -> << <<InDir(x, BSL), Body(IF x.where = "disk" THEN DISK ELSE CACHE)>>, <<InDir(x, SLA), Body(DECOY)>> >>
                    [] x.k = 6 -> << <<InDir(x, SLA), Body(DECOY)>> >>
+                   [] x.k = 7 -> << <<InDir(x, F_LIQ), Body(IF x.where = "disk" THEN DISK ELSE CACHE)>> >>
 RelOf(x) == IF (x.g = "basic" /\ x.rel = "sub") \/ x.g = "nestedsub" THEN SUB_F ELSE F_LIQ
 Target(x) == JoinPath(DirOf(TOPS[x.top]), RelOf(x))
 IncArg(x) ==
@@ -182,7 +185,7 @@ NestedAndLoop ==
   /\ (c.g = "loop" /\ st.status # "run") =>
         st.status = "ok" /\ st.sink.acc = Flatten([i \in 1..3 |-> <<91>> \o DISK \o <<58>> \o IntText(i) \o <<124, 93, 44>>]) \o <<86>>
 ExactName == (c.g = "exactname" /\ st.status # "run") =>
-               IF c.k \in {1, 3, 5} THEN st.status = "ok" /\ st.sink.acc = <<60, 91>> \o Tag(c) \o <<58, 86, 124, 87, 93, 62>>
+               IF c.k \in {1, 3, 5, 7} THEN st.status = "ok" /\ st.sink.acc = <<60, 91>> \o Tag(c) \o <<58, 86, 124, 87, 93, 62>>
                ELSE st.status = "error"
 TailKept == (c.g = "tailnl" /\ st.status # "run") =>
               st.status = "ok" /\ st.sink.acc = <<60, 91>> \o Tag(c) \o <<58, 86, 124, 87, 93>> \o TailOf(c.k) \o <<62>>
